@@ -101,7 +101,7 @@ const randRule = "random byte streams (noise, plausible record headers with nois
 
 func TestPropRandomStream(t *testing.T) {
 	kit.Run(t, kit.Spec[RandCase]{ID: "C32", Name: "random-stream", Rule: randRule, Gen: genRandCase, Check: checkRand,
-		Quick: 1500, Thorough: 12000, Assumptions: commonAssumptions})
+		Quick: 800, Thorough: 8000, Assumptions: commonAssumptions})
 }
 
 // ---------------------------------------------------------------------------
